@@ -88,6 +88,19 @@ func externalGlobal(ex *Exec, g *ssa.Global) (Value, bool) {
 	return nil, false
 }
 
+func hasMethod(t types.Type, name string) bool {
+	if _, ok := t.(*nativeType); ok {
+		return false
+	}
+	ms := types.NewMethodSet(t)
+	for i := 0; i < ms.Len(); i++ {
+		if ms.At(i).Obj().Name() == name {
+			return true
+		}
+	}
+	return false
+}
+
 func errorsIs(ex *Exec, err, target Value) bool {
 	e := err.(Iface)
 	t := target.(Iface)
@@ -106,6 +119,9 @@ func errorsIs(ex *Exec, err, target Value) bool {
 		return false
 	}
 	// an error type implemented in interpreted code: follow Unwrap() error if present
+	if !hasMethod(e.T, "Unwrap") {
+		return false
+	}
 	if m := ex.Prog.LookupMethod(e.T, nil, "Unwrap"); m != nil && m.Signature.Results().Len() == 1 {
 		if _, isSlice := m.Signature.Results().At(0).Type().Underlying().(*types.Slice); !isSlice {
 			inner := ex.callFunction(m, []Value{e.V}, nil)
@@ -134,7 +150,7 @@ func init() {
 				wraps = append(wraps, iv)
 				continue
 			}
-			if ex.Prog.LookupMethod(iv.T, nil, "Error") != nil {
+			if hasMethod(iv.T, "Error") {
 				wraps = append(wraps, iv)
 			}
 		}
